@@ -62,8 +62,21 @@ def one(ctx, data, meta=None, opts=((False, False), (True, False), (True, True))
     ctx.evaluations += 1; good = True
     parts = src.parts_of(data); cps = dict((t, p) for t, p in src.content_parts(data))
     root = parts.get(cps.get('officeDocument')); croot = parts.get(cps.get('comments')) if 'comments' in cps else None
-    ranges, wellformed, nids, entries, touched = expected(root, croot)
+    ranges0 = expected(root, croot)
+    def merged_expected(html):
+        """consecutive hyperlinks with the same target and anchor are ONE link (C06), hence one run: the rounding of markers inside
+        links is done on the tree the walk sees, File.root_element"""
+        import copy, io as _io, warnings as _w
+        from docx2python import docx2python
+        try:
+            with _w.catch_warnings():
+                _w.simplefilter('ignore')
+                with docx2python(_io.BytesIO(data), html=html) as d:
+                    return expected(copy.deepcopy(d.docx_reader.file_of_type('officeDocument').root_element), croot)
+        except Exception:
+            return ranges0
     for html, dup in opts:
+        ranges, wellformed, nids, entries, touched = merged_expected(html)
         i, m = pk.both(ctx.drv, data, html, dup, want=['runs', 'comments'])
         case = case_payload(data, html=html, dup=dup)
         if not compare_keys(ctx, 'comments / body_runs', data, html, dup, i, m, ['comments', 'body_runs']): good = False
